@@ -129,13 +129,46 @@ func normalizeDocument(schema *Schema, doc *ast.Document, operationName string) 
 // same.
 func fingerprintDocument(doc *ast.Document, op *ast.OperationDefinition, operationName string) string {
 	h := fnv.New64a()
-	w := fingerprintWriter{h: h, fragments: collectFragmentDefs(doc)}
+	w := fingerprintWriter{h: h}
 	w.writeString("OP")
-	w.writeString(string(op.Operation))
 	w.writeString(operationName)
-	w.writeVariableDefs(op.VariableDefinitions)
-	w.writeDirectives(op.Directives)
-	w.writeSelectionSet(op.SelectionSet)
+	// Every definition takes part, not only the selected operation and the
+	// fragments it reaches: the whole document is validated, so another
+	// operation or an unused fragment decides whether the request is
+	// answered at all.
+	for _, def := range doc.Definitions {
+		switch d := def.(type) {
+		case *ast.OperationDefinition:
+			if d == op {
+				w.writeByte('*') // the operation that is executed
+			}
+			w.writeByte('O')
+			w.writeString(string(d.Operation))
+			if d.Name != nil {
+				w.writeString(d.Name.Value)
+			}
+			w.writeVariableDefs(d.VariableDefinitions)
+			w.writeDirectives(d.Directives)
+			w.writeSelectionSet(d.SelectionSet)
+		case *ast.FragmentDefinition:
+			w.writeByte('F')
+			if d.Name != nil {
+				w.writeString(d.Name.Value)
+			}
+			if d.TypeCondition != nil && d.TypeCondition.Name != nil {
+				w.writeString(d.TypeCondition.Name.Value)
+			}
+			w.writeDirectives(d.Directives)
+			w.writeSelectionSet(d.SelectionSet)
+		default:
+			// type-system definitions make the request invalid: keep them apart
+			w.writeByte('T')
+			if def != nil {
+				w.writeString(def.GetKind())
+			}
+		}
+		w.writeByte(';')
+	}
 	return strconv.FormatUint(h.Sum64(), 16)
 }
 
@@ -155,9 +188,7 @@ func collectFragmentDefs(doc *ast.Document) map[string]*ast.FragmentDefinition {
 // spread-reachable structure participates in the cache key), but we
 // don't rewrite anything.
 type fingerprintWriter struct {
-	h         interface{ Write([]byte) (int, error) }
-	fragments map[string]*ast.FragmentDefinition
-	visited   map[string]bool
+	h interface{ Write([]byte) (int, error) }
 }
 
 // writeString feeds a name or literal text. It is length-prefixed so that
@@ -273,31 +304,10 @@ func (w *fingerprintWriter) writeSelectionSet(sel *ast.SelectionSet) {
 				w.writeString(s.Name.Value)
 				w.writeDirectives(s.Directives)
 				w.writeByte(';')
-				w.writeFragmentBody(s.Name.Value)
 			}
 		}
 	}
 	w.writeByte('}')
-}
-
-func (w *fingerprintWriter) writeFragmentBody(name string) {
-	if w.visited == nil {
-		w.visited = map[string]bool{}
-	}
-	if w.visited[name] {
-		return
-	}
-	w.visited[name] = true
-	frag, ok := w.fragments[name]
-	if !ok {
-		return
-	}
-	w.writeByte('F')
-	if frag.TypeCondition != nil && frag.TypeCondition.Name != nil {
-		w.writeString(frag.TypeCondition.Name.Value)
-	}
-	w.writeDirectives(frag.Directives)
-	w.writeSelectionSet(frag.SelectionSet)
 }
 
 // writeValue writes canonical bytes for an ast.Value. Variables are
